@@ -13,6 +13,24 @@ CHECKS = {
    design_ref="§5 C08",
    note="Trusts the reference container parser (run on intact files only) and the prefix model of a crash. Files > 3000 bytes: boundary cuts ±1 plus 300 sampled cuts instead of all.",
    technique="deterministic simulation: writer crash at every byte (fault enumeration over crash points) + seeded file plans"),
+ "C07": dict(
+   category="fault_enumeration",
+   text="One fault per run on top of an always-run fault-free baseline: sites are enumerated from the independent container model — every bit of every sync marker incl. the header's, every bit of every snappy checksum, every bit of one block's compressed payload (quick: sampled bits), every bit of the magic, header without schema / with unknown codec names / without codec entry, callback failure at EVERY record index. Damage must be refused with earlier blocks delivered exactly and nothing past the damaged block; 'decompressor rejects' is decided by calling flate / snappy+CRC directly. The fault-free clause demands exactly the declared records equal to the written values.",
+   design_ref="§5 C07",
+   note="Files are a seeded sample (13 curated types, 3 codecs + no-codec, both writers). When flate accepts an altered stream nothing is demanded (deflate has no checksum) and the read is not executed.",
+   technique="deterministic simulation: SimDisk stored-byte faults enumerated per file from a container model + callback fault at every index"),
+ "C09": dict(
+   category="exploration",
+   text="Seeded call histories over {Encode(record of chosen size), Flush} run against a fault-free SimDisk; after EVERY call the bytes on disk are parsed by the independent container model and compared with a framing model (pending list, per-record encodings from the library's own codec): only complete blocks visible, count>=1, exact byte length, header's sync, payload == concatenation of the next 'count' encodings in order, block emitted as soon as pending bytes reach the block size, Flush leaves nothing pending and writes nothing when nothing is pending, conservation.",
+   design_ref="§5 C09",
+   note="Sampled histories (length 1..200, block sizes incl. 0/1/2/near-record-size/exact sums/huge, 3 codecs, zero-width/one-byte/padded/nested records). Early emission is not flagged.",
+   technique="deterministic simulation: seeded call histories against SimDisk with a reference framing model checked after every step"),
+ "C16": dict(
+   category="fault_enumeration",
+   text="For each seeded history (NewEncoderFor+Encode/Flush, or NewFileWriter+WriteHeader+WriteBlock*) the fault-free run gives the reference stream F and W writes; then EVERY write index k is failed in four variants (error; short write of 1, len/2, len-1 bytes) with the sync marker pinned through crypto/rand.Reader. Required: no panic, the call that issued write k returns an error wrapping the injected one, bytes accepted are byte-for-byte a prefix of F.",
+   design_ref="§5 C16",
+   note="Histories are a seeded sample; per history the fault enumeration over k is complete. Record types without multi-entry maps only. Behaviour after the first failed call is not judged.",
+   technique="deterministic simulation: SimDisk write-fault enumeration (every write index x 4 variants) against the fault-free run of the same history"),
 }
 
 NOT_APPLICABLE = {
@@ -31,7 +49,7 @@ NOT_APPLICABLE = {
 }
 
 # planned simulation targets whose check is not built yet (kept honest while the build is in progress)
-PENDING = {k: "planned simulation target (DESIGN §5); its check is still under construction in this commit, so it is not claimed yet" for k in ["C06","C07","C09","C10","C11","C12","C16"]}
+PENDING = {k: "planned simulation target (DESIGN §5); its check is still under construction in this commit, so it is not claimed yet" for k in ["C06","C10","C11","C12"]}
 
 def main():
     hooks_commits = []
